@@ -4,6 +4,7 @@ import (
 	"fmt"
 	"go/ast"
 	"go/token"
+	"go/types"
 	"strings"
 
 	"verif/sa/core"
@@ -17,43 +18,177 @@ const (
 	fsStream      = "internal/tailer/logstream.(*fileStream).stream"
 )
 
+// whence values of io.Seek*: resolved as constants, not as spellings.
+const (
+	c16SeekStart   = 0
+	c16SeekCurrent = 1
+	c16SeekEnd     = 2
+)
+
+// c16IsFileInfo reports whether t is os.FileInfo (= io/fs.FileInfo).
+func c16IsFileInfo(t types.Type) bool {
+	n, ok := t.(*types.Named)
+	if !ok {
+		if a, isAlias := t.(*types.Alias); isAlias {
+			return c16IsFileInfo(types.Unalias(a))
+		}
+		return false
+	}
+	return n.Obj().Name() == "FileInfo" && n.Obj().Pkg() != nil && (n.Obj().Pkg().Path() == "io/fs" || n.Obj().Pkg().Path() == "os")
+}
+
+func c16IsBool(t types.Type) bool {
+	b, ok := t.(*types.Basic)
+	return ok && b.Kind() == types.Bool
+}
+
+// c16Seek decomposes a call of (*os.File).Seek with constant arguments.
+func c16Seek(f *core.Func, call *ast.CallExpr) (off, whence int64, ok bool) {
+	if len(call.Args) != 2 {
+		return 0, 0, false
+	}
+	o, ok1 := constInt(f.Info(), call.Args[0])
+	w, ok2 := constInt(f.Info(), call.Args[1])
+	return o, w, ok1 && ok2
+}
+
+// c16Succ is a start of a successor generation seen from the goroutine: a
+// direct call of fileStream.stream, or a call of a helper that calls it.
+type c16Succ struct {
+	hit    core.Hit
+	call   *ast.CallExpr
+	helper *core.Func // nil for a direct call
+}
+
 func c16(c *core.Check) {
-	c.Explain = "Decides structural necessary conditions of C16 on the file-stream goroutine and the line reader: (R1) every way a file generation ends — each return of the goroutine and each hand-over to a successor stream — is preceded on every path since the last read by a flush of the partial line (LineReader.Finish), and the flush precedes the hand-over; (R2) Finish consumes what it delivered (it empties the buffer) so a reader that keeps being used after a truncation cannot deliver the fragment a second time glued to new data; (R3) every exit either closes the stream's channel exactly once or has started a successor successfully — a failed successor closes the channel; nothing is flushed or handed over after the close; (R4) successor generations and truncated files are read from offset 0, the first generation from the end unless one-shot; (R5) at EOF-without-data the order is stat -> deleted? -> same file? -> size strictly below offset means truncation. Decided from the CFG of /repo's current source for all paths; file-system behaviour and index arithmetic inside the reader are not decided (C15)."
-	c.Assume = append(c.Assume, "the file system reports rotation through os.SameFile and truncation through size < offset as documented", "exits by panic are not considered")
+	c.Explain = "Decides structural necessary conditions of C16 on the file-stream goroutine and the line reader: (R1) every way a file generation ends — each return of the goroutine and each hand-over to a successor stream — is preceded on every path since the last read by a flush of the partial line (LineReader.Finish), and the flush precedes the hand-over; (R2) Finish consumes what it delivered (it empties the buffer) so a reader that keeps being used after a truncation cannot deliver the fragment a second time glued to new data; (R3) every exit either closes the stream's channel exactly once or has started a successor successfully — a failed successor closes the channel; nothing is flushed or handed over after the close; (R4) successor generations and truncated files are read from offset 0, the first generation from the end unless one-shot; (R5) at EOF-without-data the order is stat -> deleted? -> same file? -> size strictly below offset means truncation. Decided from the CFG of /repo's current source for all paths; conditions are recognised through the branch edges they label (either polarity, if/switch/early exit, single-assignment locals), the goroutine body may be a literal or a method started with go, and a hand-over may go through a helper that calls stream. File-system behaviour and index arithmetic inside the reader are not decided (C15)."
+	c.Assume = append(c.Assume, "the file system reports rotation through os.SameFile and truncation through size < offset as documented", "exits by panic are not considered",
+		"a local variable with exactly one definition keeps the value of its defining expression")
 	f := c.MustFn("C16-R1", fsStream)
 	if f == nil {
 		return
 	}
-	gl := goLits(c, f)
-	if len(gl) != 1 {
-		c.Undecided("C16-R1", fsStream, pos(c, f.Decl), fmt.Sprintf("expected one goroutine literal in fileStream.stream, found %d", len(gl)))
+	// the goroutine that reads: a literal or a declared function started with `go` in stream
+	var gf *core.Func
+	var goCall *ast.CallExpr
+	ngo := 0
+	core.InspectNoLit(f.Body, func(n ast.Node) bool {
+		gs, ok := n.(*ast.GoStmt)
+		if !ok {
+			return true
+		}
+		var cand *core.Func
+		if lit, ok := core.Unparen(gs.Call.Fun).(*ast.FuncLit); ok {
+			cand = c.Prog.FuncOf[lit]
+		} else {
+			cand = f.CalleeFunc(gs.Call)
+		}
+		if cand != nil && len(cand.Graph().CallsTo(lrReadAndSend)) > 0 {
+			ngo++
+			gf, goCall = cand, gs.Call
+		}
+		return true
+	})
+	if ngo != 1 {
+		c.Undecided("C16-R1", fsStream, pos(c, f.Decl), fmt.Sprintf("expected one goroutine (literal or method started with go) calling ReadAndSend in fileStream.stream, found %d", ngo))
 		return
 	}
-	gf := gl[0]
 	c.Analysed(gf)
 	g := gf.Graph()
+	ginfo := gf.Info()
 	reads := g.CallsTo(lrReadAndSend)
 	finishes := g.CallsTo(lrFinish)
-	succ := g.CallsTo(fsStream)
-	closes := closesOf(g, ".lines")
+	closes := g.Calls(func(id string, call *ast.CallExpr) bool {
+		return id == "builtin.close" && len(call.Args) == 1 && isChanOfLogLine(ginfo, call.Args[0])
+	})
 	exits := normalExits(g)
-	if len(reads) == 0 {
-		c.Undecided("C16-R1", gf.Key, pos(c, gf.Lit), "no ReadAndSend call found in the stream goroutine")
-		return
+	// successor starts
+	var succ []c16Succ
+	for _, h := range g.Find(func(n ast.Node) bool { _, ok := n.(*ast.CallExpr); return ok }) {
+		call := h.N.(*ast.CallExpr)
+		if gf.CalleeID(call) == fsStream {
+			succ = append(succ, c16Succ{hit: h, call: call})
+			continue
+		}
+		if cf := gf.CalleeFunc(call); cf != nil && cf != f && cf != gf && cf.Lit == nil && len(cf.Graph().CallsTo(fsStream)) > 0 {
+			c.Analysed(cf)
+			succ = append(succ, c16Succ{hit: h, call: call, helper: cf})
+		}
 	}
+	// helpers (one level) that flush and/or close on every path through them count as
+	// a Finish / a close at their call site
+	isSuccHelper := map[*core.Func]bool{}
+	for _, s := range succ {
+		if s.helper != nil {
+			isSuccHelper[s.helper] = true
+		}
+	}
+	for _, h := range g.Find(func(n ast.Node) bool { _, ok := n.(*ast.CallExpr); return ok }) {
+		call := h.N.(*ast.CallExpr)
+		cf := gf.CalleeFunc(call)
+		if cf == nil || cf == f || cf == gf || cf.Lit != nil || isSuccHelper[cf] || gf.CalleeID(call) == lrFinish || gf.CalleeID(call) == lrReadAndSend {
+			continue
+		}
+		hg := cf.Graph()
+		hF := core.HitPoints(hg.CallsTo(lrFinish))
+		hC := core.HitPoints(hg.Calls(func(id string, c2 *ast.CallExpr) bool {
+			return id == "builtin.close" && len(c2.Args) == 1 && isChanOfLogLine(cf.Info(), c2.Args[0])
+		}))
+		if len(hF) == 0 && len(hC) == 0 {
+			continue
+		}
+		c.Analysed(cf)
+		hexits := core.ExitPoints(normalExits(hg))
+		if len(hF) > 0 {
+			if _, some := pathAvoiding(hg, nil, hexits, hF); some {
+				c.Undecided("C16-R1", gf.Key+"|helper "+cf.Key, pos(c, call), "the callee flushes the reader on some of its paths only; whether this call site flushes is not decided")
+			} else {
+				finishes = append(finishes, h)
+			}
+		}
+		if len(hC) > 0 {
+			if _, some := pathAvoiding(hg, nil, hexits, hC); some {
+				c.Undecided("C16-R3", gf.Key+"|helper "+cf.Key, pos(c, call), "the callee closes the lines channel on some of its paths only; whether this call site ends the stream is not decided")
+			} else {
+				closes = append(closes, h)
+				// inside the helper nothing may follow the close
+				for _, cp := range hC {
+					from := cp
+					if tr, bad := pathAvoiding(hg, &from, append(append([]core.Point{}, hF...), hC...), nil); bad {
+						c.Fail("C16-R3", gf.Key+"|c|helper "+cf.Key, pos(c, call), "in the callee the lines channel is closed and then flushed into or closed again (send on / close of a closed channel)", tr...)
+					}
+				}
+			}
+		}
+	}
+	byPos := func(hs []core.Hit) {
+		for i := 1; i < len(hs); i++ {
+			for j := i; j > 0 && hs[j].N.Pos() < hs[j-1].N.Pos(); j-- {
+				hs[j], hs[j-1] = hs[j-1], hs[j]
+			}
+		}
+	}
+	byPos(finishes)
+	byPos(closes)
+	succPts := func() []core.Point {
+		var r []core.Point
+		for _, s := range succ {
+			r = append(r, s.hit.P)
+		}
+		return r
+	}()
 
-	c.Rule("C16-R1", "FLUSH: in the file-stream goroutine no path from a LineReader.ReadAndSend call to (a) a return of the goroutine or (b) a call starting the successor stream avoids LineReader.Finish")
+	c.Rule("C16-R1", "FLUSH: in the file-stream goroutine no path from a LineReader.ReadAndSend call to (a) a return of the goroutine or (b) a call starting the successor stream (directly or through a helper) avoids LineReader.Finish")
 	type target struct {
 		name string
 		p    core.Point
-		n    ast.Node
 	}
 	var targets []target
 	for _, e := range exits {
-		targets = append(targets, target{"exit=" + e.String(), e.P, e.P.Node()})
+		targets = append(targets, target{"exit=" + e.String(), e.P})
 	}
 	for i, s := range succ {
-		targets = append(targets, target{fmt.Sprintf("successor#%d", i+1), s.P, s.N})
+		targets = append(targets, target{fmt.Sprintf("successor#%d", i+1), s.hit.P})
 	}
 	for _, t := range targets {
 		bad := false
@@ -71,66 +206,16 @@ func c16(c *core.Check) {
 	}
 	c.Floor("C16-R1", 5)
 
-	c.Rule("C16-R2", "CONSUME: LineReader.Finish, on every path after sending the fragment, empties the buffer (lr.off = len(lr.buf), or lr.buf = lr.buf[:0]/nil with lr.off = 0) — required because the truncation branch keeps using the reader after Finish")
-	if ff := c.MustFn("C16-R2", lrFinish); ff != nil {
-		fg := ff.Graph()
-		sends := fg.Find(func(n ast.Node) bool { _, ok := n.(*ast.SendStmt); return ok })
-		resets := fg.Find(func(n ast.Node) bool {
-			as, ok := n.(*ast.AssignStmt)
-			if !ok || len(as.Lhs) != 1 || len(as.Rhs) != 1 {
-				return false
-			}
-			l := core.PathOf(as.Lhs[0])
-			r := strings.ReplaceAll(exprStr(as.Rhs[0]), " ", "")
-			recv := recvIdent(ff)
-			switch l {
-			case recv + ".off":
-				return r == "len("+recv+".buf)"
-			case recv + ".buf":
-				return r == recv+".buf[:0]" || r == "nil" || strings.HasPrefix(r, "make(") || r == recv+".buf[len("+recv+".buf):]"
-			}
-			return false
-		})
-		// is the reader used again after Finish anywhere?
-		reused := []string{}
-		for _, sf := range shipped(c) {
-			sg := sf.Graph()
-			for _, h := range sg.CallsTo(lrFinish) {
-				if h.InDefer {
-					continue
-				}
-				from := h.P
-				again := append(core.HitPoints(sg.CallsTo(lrReadAndSend)), core.HitPoints(sg.CallsTo(lrFinish))...)
-				if _, found := pathAvoiding(sg, &from, again, nil); found {
-					reused = append(reused, sf.Key+"@"+pos(c, h.N))
-				}
-			}
-		}
-		c.Extra["finish_then_reader_reused_at"] = reused
-		if len(sends) == 0 {
-			c.Undecided("C16-R2", lrFinish, pos(c, ff.Decl), "no send statement found in Finish")
-		}
-		for i, s := range sends {
-			from := s.P
-			trail, found := pathAvoiding(fg, &from, core.ExitPoints(normalExits(fg)), core.HitPoints(resets))
-			key := fmt.Sprintf("%s|send#%d", lrFinish, i+1)
-			if found && len(reused) > 0 {
-				c.Fail("C16-R2", key, pos(c, s.N), "Finish delivers the fragment but leaves it in the buffer, and the reader is used again after Finish at "+strings.Join(reused, ", ")+": after a truncation the fragment is delivered again merged with the first new line", trail...)
-			} else if found {
-				c.Ok("C16-R2", key, pos(c, s.N), "Finish does not reset the buffer, but no caller uses the reader again after Finish")
-			} else {
-				c.Ok("C16-R2", key, pos(c, s.N), "buffer emptied on every path after the send")
-			}
-		}
-	}
+	c.Rule("C16-R2", "CONSUME: LineReader.Finish, on every path after sending the fragment, empties the buffer: off = len(buf), or buf = buf[:0]/nil/make/buf[len(buf):] together with off = 0 (directly or in a method of the reader it calls) — required because the truncation branch keeps using the reader after Finish")
+	c16Finish(c)
 	c.Floor("C16-R2", 1)
 
-	c.Rule("C16-R3", "END-OR-CONTINUE: (a) no path from a read to a return avoids both close(fs.lines) and a successor start; (b) when the successor start reports an error every path to the return closes fs.lines; (c) no close(fs.lines) is followed by another close, a Finish, a read or a successor start")
+	c.Rule("C16-R3", "END-OR-CONTINUE: (a) no path from a read to a return avoids both close(lines) and a successor start; (b) when the successor start reports an error every path to the return closes the channel (in the goroutine, or in the hand-over helper) and a successful hand-over is not followed by a close; (c) no close(lines) is followed by another close, a Finish, a read or a successor start")
 	for _, e := range exits {
 		bad := false
 		for _, r := range reads {
 			from := r.P
-			if trail, found := pathAvoiding(g, &from, []core.Point{e.P}, append(core.HitPoints(closes), core.HitPoints(succ)...)); found {
+			if trail, found := pathAvoiding(g, &from, []core.Point{e.P}, append(core.HitPoints(closes), succPts...)); found {
 				bad = true
 				c.Fail("C16-R3", gf.Key+"|a|exit="+e.String(), ppos(c, e.P, gf), "the goroutine can end without closing the lines channel and without a successor: the tailer waits on this stream forever", trail...)
 				break
@@ -142,31 +227,56 @@ func c16(c *core.Check) {
 	}
 	for i, s := range succ {
 		key := fmt.Sprintf("%s|b|successor#%d", gf.Key, i+1)
-		is := enclosingErrIf(gf, s.N.(*ast.CallExpr))
-		if is == nil {
-			c.Fail("C16-R3", key, pos(c, s.N), "the error result of the successor start is not tested: a failed successor leaves the stream neither closed nor continued")
-			continue
-		}
-		start, ok := branchStart(g, is, true)
-		if !ok {
-			c.Undecided("C16-R3", key, pos(c, is), "cannot locate the error branch in the CFG")
-			continue
-		}
-		if trail, found := pathAvoiding(g, start, core.ExitPoints(exits), core.HitPoints(closes)); found {
-			c.Fail("C16-R3", key, pos(c, is), "when the successor stream cannot be started (new file unreadable or removed again) the goroutine returns without closing the lines channel: the path is never tailed again and the tailer never finishes", trail...)
-		} else {
-			c.Ok("C16-R3", key, pos(c, is), "failed successor closes the channel")
-		}
-		// on success (else/done branch) the channel must not be closed by this generation
-		if done, ok := branchStart(g, is, false); ok {
-			if trail, found := pathAvoiding(g, done, core.HitPoints(closes), core.HitPoints(reads)); found {
-				c.Fail("C16-R3", key+"|success-closes", pos(c, is), "after a successful hand-over this generation closes the channel its successor sends on", trail...)
+		site, errOnTrue, found, _ := hbErrTest(gf, g, s.call)
+		switch {
+		case found:
+			if trail, bad := pathAvoiding(g, hbBranch(site, errOnTrue), core.ExitPoints(exits), core.HitPoints(closes)); bad {
+				c.Fail("C16-R3", key, pos(c, site.Cond), "when the successor stream cannot be started (new file unreadable or removed again) the goroutine returns without closing the lines channel: the path is never tailed again and the tailer never finishes", trail...)
+			} else {
+				c.Ok("C16-R3", key, pos(c, site.Cond), "failed successor closes the channel")
 			}
+			if trail, bad := pathAvoiding(g, hbBranch(site, !errOnTrue), core.HitPoints(closes), core.HitPoints(reads)); bad {
+				c.Fail("C16-R3", key+"|success-closes", pos(c, site.Cond), "after a successful hand-over this generation closes the channel its successor sends on", trail...)
+			}
+		case s.helper != nil:
+			// the helper starts the successor and must close on failure; the goroutine must not close after it
+			hg := s.helper.Graph()
+			hcloses := hg.Calls(func(id string, call *ast.CallExpr) bool {
+				return id == "builtin.close" && len(call.Args) == 1 && isChanOfLogLine(s.helper.Info(), call.Args[0])
+			})
+			hexits := normalExits(hg)
+			okAll := true
+			for _, hh := range hg.CallsTo(fsStream) {
+				hs, hErrOnTrue, hfound, _ := hbErrTest(s.helper, hg, hh.N.(*ast.CallExpr))
+				if !hfound {
+					okAll = false
+					c.Fail("C16-R3", key, pos(c, hh.N), "the error result of the successor start is not tested in the hand-over helper "+s.helper.Key+": a failed successor leaves the stream neither closed nor continued")
+					continue
+				}
+				if trail, bad := pathAvoiding(hg, hbBranch(hs, hErrOnTrue), core.ExitPoints(hexits), core.HitPoints(hcloses)); bad {
+					okAll = false
+					c.Fail("C16-R3", key, pos(c, hs.Cond), "when the successor stream cannot be started the hand-over helper "+s.helper.Key+" returns without closing the lines channel: the path is never tailed again and the tailer never finishes", trail...)
+				}
+				if trail, bad := pathAvoiding(hg, hbBranch(hs, !hErrOnTrue), core.HitPoints(hcloses), nil); bad {
+					okAll = false
+					c.Fail("C16-R3", key+"|success-closes", pos(c, hs.Cond), "after a successful hand-over the helper closes the channel the successor sends on", trail...)
+				}
+			}
+			from := s.hit.P
+			if trail, bad := pathAvoiding(g, &from, core.HitPoints(closes), core.HitPoints(reads)); bad {
+				okAll = false
+				c.Fail("C16-R3", key+"|success-closes", pos(c, s.call), "after the hand-over helper (which closes the channel itself when the successor cannot be started) this generation closes the channel again, or closes the channel its successor sends on", trail...)
+			}
+			if okAll {
+				c.Ok("C16-R3", key, pos(c, s.call), "hand-over helper "+s.helper.Key+" closes the channel when the successor fails")
+			}
+		default:
+			c.Fail("C16-R3", key, pos(c, s.call), "the error result of the successor start is not tested: a failed successor leaves the stream neither closed nor continued")
 		}
 	}
 	for i, cl := range closes {
 		from := cl.P
-		after := append(append(append(core.HitPoints(closes), core.HitPoints(finishes)...), core.HitPoints(reads)...), core.HitPoints(succ)...)
+		after := append(append(append(core.HitPoints(closes), core.HitPoints(finishes)...), core.HitPoints(reads)...), succPts...)
 		key := fmt.Sprintf("%s|c|close#%d", gf.Key, i+1)
 		if trail, found := pathAvoiding(g, &from, after, nil); found {
 			c.Fail("C16-R3", key, pos(c, cl.N), "after close(fs.lines) the goroutine can still flush, read, hand over or close again (send on / close of a closed channel)", trail...)
@@ -176,191 +286,523 @@ func c16(c *core.Check) {
 	}
 	c.Floor("C16-R3", 8)
 
-	c.Rule("C16-R4", "START-OFFSET: every successor start passes the constant true for streamFromStart; newFileStream passes oneShot == OneShotEnabled; in stream the seek to the end is guarded by !streamFromStart; every Seek in the goroutine is Seek(0, io.SeekCurrent) or Seek(0, io.SeekStart) and the truncation branch reaches Seek(0, io.SeekStart) after Finish on every path")
-	pi := paramIndex(f, "streamFromStart")
-	if pi < 0 {
-		c.Undecided("C16-R4", fsStream, pos(c, f.Decl), "parameter streamFromStart not found")
+	c.Rule("C16-R4", "START-OFFSET: every successor start passes the constant true for stream's boolean parameter (streamFromStart); newFileStream passes `oneShot is enabled` for it; in stream the Seek(0, io.SeekEnd) is reachable only where that parameter is false; every Seek in the goroutine is Seek(0, io.SeekCurrent) or Seek(0, io.SeekStart) and the truncation branch reaches Seek(0, io.SeekStart) after Finish on every path")
+	boolParams, boolIdx := hbParamsWhere(f, c16IsBool)
+	if len(boolParams) != 1 {
+		c.Undecided("C16-R4", fsStream, pos(c, f.Decl), fmt.Sprintf("expected exactly one bool parameter (streamFromStart) of fileStream.stream, found %d", len(boolParams)))
 	} else {
+		fromStart, pi := boolParams[0], boolIdx[0]
 		for i, s := range succ {
-			call := s.N.(*ast.CallExpr)
-			v, isConst := constBool(gf.Info(), call.Args[pi])
-			c.Verdict(isConst && v, "C16-R4", fmt.Sprintf("%s|successor#%d streamFromStart", gf.Key, i+1), pos(c, call), "true",
-				"a successor generation is not started from offset 0: lines written to the new file before the hand-over are skipped")
-		}
-		if nf := c.MustFn("C16-R4", "internal/tailer/logstream.newFileStream"); nf != nil {
-			for _, h := range nf.Graph().CallsTo(fsStream) {
-				call := h.N.(*ast.CallExpr)
-				arg := call.Args[pi]
-				okArg := false
-				if id, ok := core.Unparen(arg).(*ast.Ident); ok {
-					// find its single definition
-					core.InspectNoLit(nf.Body, func(n ast.Node) bool {
-						if as, ok := n.(*ast.AssignStmt); ok && len(as.Lhs) == 1 && len(as.Rhs) == 1 {
-							if l, ok := as.Lhs[0].(*ast.Ident); ok && nf.Info().ObjectOf(l) == nf.Info().ObjectOf(id) {
-								r := strings.ReplaceAll(exprStr(as.Rhs[0]), " ", "")
-								okArg = r == "oneShot==OneShotEnabled" || r == "OneShotEnabled==oneShot"
-							}
-						}
-						return true
-					})
-				} else {
-					r := strings.ReplaceAll(exprStr(arg), " ", "")
-					okArg = r == "oneShot==OneShotEnabled"
-				}
-				c.Verdict(okArg, "C16-R4", "internal/tailer/logstream.newFileStream|first generation", pos(c, call), "streamFromStart = (oneShot == OneShotEnabled)",
-					"the first generation's start offset is not `oneShot == OneShotEnabled`: a tailed file is replayed from the start, or a one-shot file is skipped")
+			key := fmt.Sprintf("%s|successor#%d streamFromStart", gf.Key, i+1)
+			const failTxt = "a successor generation is not started from offset 0: lines written to the new file before the hand-over are skipped"
+			if s.helper == nil {
+				v, isConst := constBool(ginfo, s.call.Args[pi])
+				c.Verdict(isConst && v, "C16-R4", key, pos(c, s.call), "true", failTxt)
+				continue
+			}
+			for _, hh := range s.helper.Graph().CallsTo(fsStream) {
+				hc := hh.N.(*ast.CallExpr)
+				v, isConst := constBool(s.helper.Info(), hc.Args[pi])
+				c.Verdict(isConst && v, "C16-R4", key, pos(c, hc), "true (in "+s.helper.Key+")", failTxt)
 			}
 		}
-		// seek to end guarded by !streamFromStart
+		if nf := c.MustFn("C16-R4", "internal/tailer/logstream.newFileStream"); nf != nil {
+			ninfo := nf.Info()
+			for _, h := range nf.Graph().CallsTo(fsStream) {
+				call := h.N.(*ast.CallExpr)
+				arg := hbResolve(nf, call.Args[pi])
+				verdict := c16OneShotEnabled(nf, ninfo, arg)
+				key := "internal/tailer/logstream.newFileStream|first generation"
+				switch verdict {
+				case "yes":
+					c.Ok("C16-R4", key, pos(c, call), "streamFromStart = (oneShot is enabled)")
+				case "no":
+					c.Fail("C16-R4", key, pos(c, call), "the first generation's start offset is not `oneShot == OneShotEnabled` (got "+exprStr(arg)+"): a tailed file is replayed from the start, or a one-shot file is skipped")
+				default:
+					c.Undecided("C16-R4", key, pos(c, call), "the first generation's streamFromStart argument has an unrecognised shape: "+exprStr(arg))
+				}
+			}
+		}
+		// seek to end only when !streamFromStart
 		sg := f.Graph()
+		notFromStart := hbBoolAtom(f.Info(), fromStart, false)
 		for _, h := range sg.CallsTo("os.(*File).Seek") {
 			call := h.N.(*ast.CallExpr)
-			wh := exprStr(call.Args[1])
-			off, isC := constInt(f.Info(), call.Args[0])
-			if wh != "io.SeekEnd" || !isC || off != 0 {
+			off, wh, isC := c16Seek(f, call)
+			if !isC || wh != c16SeekEnd || off != 0 {
 				c.Fail("C16-R4", fsStream+"|initial seek", pos(c, call), "the initial seek is not Seek(0, io.SeekEnd)")
 				continue
 			}
-			guarded := false
-			for _, ic := range f.EnclosingIfs(call.Pos()) {
-				cond := strings.ReplaceAll(exprStr(ic.If.Cond), " ", "")
-				if (cond == "!streamFromStart" && ic.InThen) || (cond == "streamFromStart" && !ic.InThen) {
-					guarded = true
-				}
-			}
-			c.Verdict(guarded, "C16-R4", fsStream+"|initial seek", pos(c, call), "seek to end only when !streamFromStart", "the seek to the end of the file is not guarded by !streamFromStart")
+			tr, unguarded := hbUnguardedPath(sg, nil, []core.Point{h.P}, notFromStart)
+			c.Verdict(!unguarded, "C16-R4", fsStream+"|initial seek", pos(c, call), "seek to end only when !streamFromStart", "the seek to the end of the file is reachable when streamFromStart is true: a successor generation (or a one-shot file) skips what is already in the file", tr...)
 		}
 	}
 	// seeks in the goroutine
 	var seekStart, seekCur []core.Hit
 	for _, h := range g.CallsTo("os.(*File).Seek") {
 		call := h.N.(*ast.CallExpr)
-		off, isC := constInt(gf.Info(), call.Args[0])
-		wh := exprStr(call.Args[1])
+		off, wh, isC := c16Seek(gf, call)
 		switch {
-		case isC && off == 0 && wh == "io.SeekStart":
+		case isC && off == 0 && wh == c16SeekStart:
 			seekStart = append(seekStart, h)
-		case isC && off == 0 && wh == "io.SeekCurrent":
+		case isC && off == 0 && wh == c16SeekCurrent:
 			seekCur = append(seekCur, h)
 		default:
 			c.Fail("C16-R4", gf.Key+"|seek", pos(c, call), "unexpected seek in the stream goroutine: only Seek(0, io.SeekCurrent) (tell) and Seek(0, io.SeekStart) (truncation) keep the read offset consistent with what was delivered")
 		}
 	}
-	// truncation branch
-	truncIfs := ifsWhere(gf, func(is *ast.IfStmt) bool {
-		return exprCalls(gf, is.Cond, "io/fs.FileInfo.Size", "os.FileInfo.Size") || strings.Contains(exprStr(is.Cond), ".Size()")
-	})
-	c.Rule("C16-R5", "DETECT: the goroutine stats the tailed path; IsNotExist leads to Finish+close+return; os.SameFile(fi, newfi) compares the generation's own FileInfo with the fresh stat; truncation is `size < offset` (strict) with offset from Seek(0, io.SeekCurrent), and the rotation test precedes the truncation test")
-	if len(truncIfs) != 1 {
-		c.Undecided("C16-R5", gf.Key+"|truncation test", pos(c, gf.Lit), fmt.Sprintf("expected one `if newfi.Size() < offset`, found %d", len(truncIfs)))
+
+	c.Rule("C16-R5", "DETECT: the goroutine stats the tailed path; a not-exist error leads to Finish+close+return; os.SameFile compares the generation's own FileInfo with the fresh stat; truncation is `size of the fresh stat < offset` (strict, either operand order or negated) with offset from Seek(0, io.SeekCurrent), the rotation test precedes the truncation test, and a successor started on rotation receives the fresh FileInfo")
+	// fresh stat
+	stats := g.CallsTo("os.Stat")
+	var newfi types.Object
+	if len(stats) == 1 {
+		if as := assignOf(gf, stats[0].N.(*ast.CallExpr)); as != nil && len(as.Lhs) > 0 {
+			newfi = identObj(ginfo, as.Lhs[0])
+		}
+	}
+	// offsets obtained from Seek(0, io.SeekCurrent)
+	offsetObjs := map[types.Object]bool{}
+	for _, h := range seekCur {
+		if as := assignOf(gf, h.N.(*ast.CallExpr)); as != nil && len(as.Lhs) > 0 {
+			if o := identObj(ginfo, as.Lhs[0]); o != nil {
+				offsetObjs[o] = true
+			}
+		}
+	}
+	isSize := func(e ast.Expr) (ast.Expr, bool) {
+		call, ok := hbResolve(gf, e).(*ast.CallExpr)
+		if !ok {
+			return nil, false
+		}
+		sel, ok := core.Unparen(call.Fun).(*ast.SelectorExpr)
+		if !ok || sel.Sel.Name != "Size" || len(call.Args) != 0 {
+			return nil, false
+		}
+		if t := ginfo.TypeOf(sel.X); t == nil || !c16IsFileInfo(t) {
+			return nil, false
+		}
+		return sel.X, true
+	}
+	type truncTest struct {
+		site      hbSite
+		truncTrue bool // the truncation edge is the true edge
+		strict    bool
+		sizeOf    ast.Expr
+		other     ast.Expr
+	}
+	var truncs []truncTest
+	for _, s := range hbSites(g) {
+		e := core.Unparen(s.Cond)
+		if id, ok := e.(*ast.Ident); ok {
+			if def := hbSingleDef(gf, identObj(ginfo, id)); def != nil {
+				e = core.Unparen(def)
+			}
+		}
+		neg := false
+		for {
+			u, ok := e.(*ast.UnaryExpr)
+			if !ok || u.Op != token.NOT {
+				break
+			}
+			neg = !neg
+			e = core.Unparen(u.X)
+		}
+		be, ok := e.(*ast.BinaryExpr)
+		if !ok {
+			continue
+		}
+		op := be.Op
+		var sizeOf, other ast.Expr
+		if x, ok := isSize(be.X); ok {
+			sizeOf, other = x, be.Y
+		} else if x, ok := isSize(be.Y); ok {
+			sizeOf, other = x, be.X
+			op = map[token.Token]token.Token{token.LSS: token.GTR, token.GTR: token.LSS, token.LEQ: token.GEQ, token.GEQ: token.LEQ}[op]
+		} else {
+			continue
+		}
+		// normalised: size op other
+		t := truncTest{site: s, sizeOf: sizeOf, other: other}
+		switch op {
+		case token.LSS:
+			t.truncTrue, t.strict = true, true
+		case token.GEQ:
+			t.truncTrue, t.strict = false, true
+		case token.LEQ:
+			t.truncTrue, t.strict = true, false
+		case token.GTR:
+			t.truncTrue, t.strict = false, false
+		default:
+			continue
+		}
+		if neg {
+			t.truncTrue = !t.truncTrue
+		}
+		truncs = append(truncs, t)
+	}
+	if len(truncs) != 1 {
+		c.Undecided("C16-R5", gf.Key+"|truncation test", pos(c, gf.Body), fmt.Sprintf("expected one comparison of a FileInfo's Size() with the read offset, found %d", len(truncs)))
 	} else {
-		ti := truncIfs[0]
-		be, _ := core.Unparen(ti.Cond).(*ast.BinaryExpr)
-		okCmp := false
-		if be != nil {
-			l, r := exprStr(be.X), exprStr(be.Y)
-			var offExpr ast.Expr
-			if strings.HasSuffix(l, ".Size()") && be.Op == token.LSS {
-				offExpr = be.Y
-			} else if strings.HasSuffix(r, ".Size()") && be.Op == token.GTR {
-				offExpr = be.X
-			}
-			if offExpr != nil {
-				// offset must be the result of a Seek(0, SeekCurrent)
-				obj := identObj(gf.Info(), offExpr)
-				for _, h := range seekCur {
-					if as := assignOf(gf, h.N.(*ast.CallExpr)); as != nil && len(as.Lhs) > 0 && identObj(gf.Info(), as.Lhs[0]) == obj && obj != nil {
-						okCmp = true
-					}
-				}
-			}
+		tt := truncs[0]
+		okOff := offsetObjs[identObj(ginfo, hbResolve(gf, tt.other))] || offsetObjs[identObj(ginfo, tt.other)]
+		okFresh := newfi != nil && identObj(ginfo, tt.sizeOf) == newfi
+		c.Verdict(tt.strict && okOff && okFresh, "C16-R5", gf.Key+"|truncation test", pos(c, tt.site.Cond), "fresh size < current offset (strict)",
+			fmt.Sprintf("the truncation test is not `size of the fresh stat < current read offset` (strict=%v, offset from Seek(0, io.SeekCurrent)=%v, size of the fresh stat=%v): with <= every idle poll re-reads the whole file; with a different operand truncations are missed", tt.strict, okOff, okFresh))
+		start := hbBranch(tt.site, tt.truncTrue)
+		leave := append(core.ExitPoints(exits), core.HitPoints(reads)...)
+		if trail, found := pathAvoiding(g, start, leave, core.HitPoints(seekStart)); found {
+			c.Fail("C16-R4", gf.Key+"|truncation seek", pos(c, tt.site.Cond), "the truncation branch can go back to reading without Seek(0, io.SeekStart): the new contents are never read (offset stays beyond the end)", trail...)
+		} else {
+			c.Ok("C16-R4", gf.Key+"|truncation seek", pos(c, tt.site.Cond), "Seek(0, io.SeekStart) before the next read")
 		}
-		c.Verdict(okCmp, "C16-R5", gf.Key+"|truncation test", pos(c, ti), "size < current offset (strict)", "the truncation test is not `new size < current read offset` (strict, offset from Seek(0, io.SeekCurrent)): with <= every idle poll re-reads the whole file; with a different operand truncations are missed")
-		// branch: Finish then SeekStart on every path to leaving the branch
-		if start, ok := branchStart(g, ti, true); ok {
-			head := loopHeadOf(g, gf)
-			leave := append(core.ExitPoints(exits), core.HitPoints(reads)...)
-			_ = head
-			if trail, found := pathAvoiding(g, start, leave, core.HitPoints(seekStart)); found {
-				c.Fail("C16-R4", gf.Key+"|truncation seek", pos(c, ti), "the truncation branch can go back to reading without Seek(0, io.SeekStart): the new contents are never read (offset stays beyond the end)", trail...)
-			} else {
-				c.Ok("C16-R4", gf.Key+"|truncation seek", pos(c, ti), "Seek(0, io.SeekStart) before the next read")
-			}
-			if trail, found := pathAvoiding(g, start, core.HitPoints(seekStart), core.HitPoints(finishes)); found {
-				c.Fail("C16-R1", gf.Key+"|truncation flush", pos(c, ti), "the truncation branch rewinds without first flushing the fragment of the old contents", trail...)
-			} else {
-				c.Ok("C16-R1", gf.Key+"|truncation flush", pos(c, ti), "Finish before rewinding")
-			}
+		if trail, found := pathAvoiding(g, start, core.HitPoints(seekStart), core.HitPoints(finishes)); found {
+			c.Fail("C16-R1", gf.Key+"|truncation flush", pos(c, tt.site.Cond), "the truncation branch rewinds without first flushing the fragment of the old contents", trail...)
+		} else {
+			c.Ok("C16-R1", gf.Key+"|truncation flush", pos(c, tt.site.Cond), "Finish before rewinding")
 		}
-		// rotation test precedes truncation test
+		// rotation test
 		same := g.CallsTo("os.SameFile")
 		if len(same) != 1 {
-			c.Undecided("C16-R5", gf.Key+"|rotation test", pos(c, gf.Lit), fmt.Sprintf("expected one os.SameFile call, found %d", len(same)))
+			c.Undecided("C16-R5", gf.Key+"|rotation test", pos(c, gf.Body), fmt.Sprintf("expected one os.SameFile call, found %d", len(same)))
 		} else {
 			call := same[0].N.(*ast.CallExpr)
-			stats := g.CallsTo("os.Stat")
-			okArgs := false
-			fiObj := paramObj(f, "fi")
-			if len(stats) == 1 {
-				if as := assignOf(gf, stats[0].N.(*ast.CallExpr)); as != nil {
-					newfi := identObj(gf.Info(), as.Lhs[0])
-					a0, a1 := identObj(gf.Info(), call.Args[0]), identObj(gf.Info(), call.Args[1])
-					okArgs = newfi != nil && fiObj != nil && ((a0 == fiObj && a1 == newfi) || (a1 == fiObj && a0 == newfi))
-				}
-				sc := stats[0].N.(*ast.CallExpr)
-				okPath := len(sc.Args) == 1 && strings.HasSuffix(core.PathOf(sc.Args[0]), ".pathname")
-				c.Verdict(okPath, "C16-R5", gf.Key+"|stat path", pos(c, sc), "stat of the tailed pathname", "the stat that detects rotation is not of the tailed pathname")
+			// this generation's FileInfo: the FileInfo parameter of stream (captured), or the
+			// goroutine function's own FileInfo parameter fed from it at the go statement
+			ownFi := map[types.Object]bool{}
+			fiParams, _ := hbParamsWhere(f, c16IsFileInfo)
+			for _, o := range fiParams {
+				ownFi[o] = true
 			}
-			c.Verdict(okArgs, "C16-R5", gf.Key+"|rotation test", pos(c, call), "SameFile(this generation's FileInfo, fresh stat)", "os.SameFile does not compare this generation's FileInfo with the fresh stat of the path")
-			// every path to the truncation cond passes SameFile
-			if cp, ok := g.PointOf(ti.Cond); ok {
-				if trail, found := pathAvoiding(g, nil, []core.Point{cp}, core.HitPoints(same)); found {
-					c.Fail("C16-R5", gf.Key+"|order", pos(c, ti), "the truncation test can be reached without the rotation test", trail...)
-				} else {
-					c.Ok("C16-R5", gf.Key+"|order", pos(c, ti), "rotation test first")
-				}
-			}
-			// successor on rotation gets the fresh FileInfo
-			for i, s := range succ {
-				sc := s.N.(*ast.CallExpr)
-				fiIdx := paramIndex(f, "fi")
-				in := false
-				for _, ic := range gf.EnclosingIfs(sc.Pos()) {
-					if exprCalls(gf, ic.If.Cond, "os.SameFile") {
-						in = true
+			if gf.Lit == nil && goCall != nil {
+				gp, gi := hbParamsWhere(gf, c16IsFileInfo)
+				for k, o := range gp {
+					if gi[k] < len(goCall.Args) && ownFi[identObj(f.Info(), goCall.Args[gi[k]])] {
+						ownFi[o] = true
 					}
 				}
-				if in && fiIdx >= 0 && len(stats) == 1 {
-					as := assignOf(gf, stats[0].N.(*ast.CallExpr))
-					okFi := as != nil && identObj(gf.Info(), sc.Args[fiIdx]) == identObj(gf.Info(), as.Lhs[0])
-					c.Verdict(okFi, "C16-R5", fmt.Sprintf("%s|successor#%d fileinfo", gf.Key, i+1), pos(c, sc), "successor receives the new file's FileInfo",
-						"the successor started on rotation does not receive the new file's FileInfo: it compares against the old inode and re-opens forever or misses the next rotation")
+			}
+			if len(stats) == 1 {
+				sc := stats[0].N.(*ast.CallExpr)
+				okPath := len(sc.Args) == 1 && strings.HasSuffix(core.PathOf(hbResolve(gf, sc.Args[0])), ".pathname")
+				c.Verdict(okPath, "C16-R5", gf.Key+"|stat path", pos(c, sc), "stat of the tailed pathname", "the stat that detects rotation is not of the tailed pathname")
+			}
+			okArgs := false
+			if newfi != nil && len(call.Args) == 2 {
+				a0, a1 := identObj(ginfo, call.Args[0]), identObj(ginfo, call.Args[1])
+				okArgs = (ownFi[a0] && a1 == newfi) || (ownFi[a1] && a0 == newfi)
+			}
+			c.Verdict(okArgs, "C16-R5", gf.Key+"|rotation test", pos(c, call), "SameFile(this generation's FileInfo, fresh stat)", "os.SameFile does not compare this generation's FileInfo with the fresh stat of the path")
+			// the truncation test is reachable only where SameFile reported the same file
+			sameFile := func(e ast.Expr) (bool, bool) {
+				if e == ast.Expr(call) {
+					return true, false
+				}
+				return false, false
+			}
+			cp := core.Point{B: tt.site.B, I: len(tt.site.B.Nodes) - 1}
+			if trail, found := hbUnguardedPath(g, nil, []core.Point{cp}, sameFile); found {
+				c.Fail("C16-R5", gf.Key+"|order", pos(c, tt.site.Cond), "the truncation test can be reached without os.SameFile having reported that the path still names this generation's file: a rotated file is treated as truncated (or the rotation test is skipped)", trail...)
+			} else {
+				c.Ok("C16-R5", gf.Key+"|order", pos(c, tt.site.Cond), "rotation test first; truncation only for the same file")
+			}
+			// a successor reachable only where SameFile was false receives the fresh FileInfo
+			rotated := func(e ast.Expr) (bool, bool) {
+				if e == ast.Expr(call) {
+					return false, true
+				}
+				return false, false
+			}
+			_, fiIdx := hbParamsWhere(f, c16IsFileInfo)
+			nrot := 0
+			for _, s := range succ {
+				if _, unguarded := hbUnguardedPath(g, nil, []core.Point{s.hit.P}, rotated); !unguarded {
+					nrot++
 				}
 			}
-		}
-		// deletion: IsNotExist branch closes
-		notEx := ifsWhere(gf, func(is *ast.IfStmt) bool { return exprCalls(gf, is.Cond, "os.IsNotExist") })
-		for i, ne := range notEx {
-			if start, ok := branchStart(g, ne, true); ok {
-				key := fmt.Sprintf("%s|deleted#%d", gf.Key, i+1)
-				t1, f1 := pathAvoiding(g, start, append(core.ExitPoints(exits), core.HitPoints(reads)...), core.HitPoints(closes))
-				if f1 {
-					c.Fail("C16-R5", key, pos(c, ne), "when the file no longer exists the stream does not end (close) before reading again or returning", t1...)
-				} else {
-					c.Ok("C16-R5", key, pos(c, ne), "deleted file ends the stream")
+			c.Verdict(nrot > 0, "C16-R5", gf.Key+"|rotation hands over", pos(c, call), fmt.Sprintf("%d successor start(s) reachable exactly where SameFile is false", nrot), "no successor stream is started on the branch on which os.SameFile reports a different file: after a rename-and-recreate rotation the new file is never read")
+			for i, s := range succ {
+				if _, unguarded := hbUnguardedPath(g, nil, []core.Point{s.hit.P}, rotated); unguarded || len(fiIdx) != 1 || newfi == nil {
+					continue
 				}
+				key := fmt.Sprintf("%s|successor#%d fileinfo", gf.Key, i+1)
+				const failTxt = "the successor started on rotation does not receive the new file's FileInfo: it compares against the old inode and re-opens forever or misses the next rotation"
+				if s.helper == nil {
+					c.Verdict(identObj(ginfo, s.call.Args[fiIdx[0]]) == newfi, "C16-R5", key, pos(c, s.call), "successor receives the new file's FileInfo", failTxt)
+					continue
+				}
+				// through the helper: the argument bound to the helper's FileInfo parameter is the fresh stat, and the helper passes that parameter on
+				hp, hi := hbParamsWhere(s.helper, c16IsFileInfo)
+				okFi := len(hp) == 1 && hi[0] < len(s.call.Args) && identObj(ginfo, s.call.Args[hi[0]]) == newfi
+				for _, hh := range s.helper.Graph().CallsTo(fsStream) {
+					hc := hh.N.(*ast.CallExpr)
+					if len(hp) != 1 || identObj(s.helper.Info(), hc.Args[fiIdx[0]]) != hp[0] {
+						okFi = false
+					}
+				}
+				c.Verdict(okFi, "C16-R5", key, pos(c, s.call), "successor receives the new file's FileInfo (through "+s.helper.Key+")", failTxt)
 			}
 		}
-		if len(notEx) == 0 {
-			c.Fail("C16-R5", gf.Key+"|deleted", pos(c, gf.Lit), "no os.IsNotExist test on the stat error: a deleted file is polled forever and a re-created one is never picked up")
+		// deletion: the not-exist edge ends the stream
+		notExist := func(e ast.Expr) (bool, bool) {
+			call, ok := core.Unparen(e).(*ast.CallExpr)
+			if !ok {
+				return false, false
+			}
+			switch gf.CalleeID(call) {
+			case "os.IsNotExist":
+				return true, false
+			case "errors.Is":
+				if len(call.Args) == 2 {
+					if o := usedObj(ginfo, call.Args[1]); o != nil && o.Name() == "ErrNotExist" && o.Pkg() != nil && (o.Pkg().Path() == "os" || o.Pkg().Path() == "io/fs") {
+						return true, false
+					}
+				}
+			}
+			return false, false
+		}
+		ndel := 0
+		for _, s := range hbSites(g) {
+			t, fl := hbImplies(gf, s.Cond, notExist)
+			if t == fl {
+				continue
+			}
+			ndel++
+			key := fmt.Sprintf("%s|deleted#%d", gf.Key, ndel)
+			if t1, f1 := pathAvoiding(g, hbBranch(s, t), append(core.ExitPoints(exits), core.HitPoints(reads)...), core.HitPoints(closes)); f1 {
+				c.Fail("C16-R5", key, pos(c, s.Cond), "when the file no longer exists the stream does not end (close) before reading again or returning", t1...)
+			} else {
+				c.Ok("C16-R5", key, pos(c, s.Cond), "deleted file ends the stream")
+			}
+		}
+		if ndel == 0 {
+			c.Fail("C16-R5", gf.Key+"|deleted", pos(c, gf.Body), "no os.IsNotExist test on the stat error: a deleted file is polled forever and a re-created one is never picked up")
 		}
 	}
 	c.Floor("C16-R4", 4)
-	c.Floor("C16-R5", 5)
+	c.Floor("C16-R5", 6)
+}
+
+// c16OneShotEnabled classifies the expression passed as streamFromStart by
+// newFileStream: "yes" when it is true exactly when the one-shot mode
+// parameter is enabled, "no" when it is positively something else, "" when the
+// shape is not recognised.
+func c16OneShotEnabled(nf *core.Func, info *types.Info, arg ast.Expr) string {
+	isMode := func(e ast.Expr) bool {
+		o := identObj(info, e)
+		if o == nil {
+			return false
+		}
+		n, ok := o.Type().(*types.Named)
+		if !ok || n.Obj().Name() != "OneShotMode" {
+			return false
+		}
+		_, isVar := o.(*types.Var)
+		return isVar
+	}
+	arg = core.Unparen(arg)
+	if v, isC := constBool(info, arg); isC {
+		_ = v
+		return "no" // a constant: every first generation starts the same way
+	}
+	switch x := arg.(type) {
+	case *ast.BinaryExpr:
+		if x.Op != token.EQL && x.Op != token.NEQ {
+			return ""
+		}
+		var cst ast.Expr
+		switch {
+		case isMode(x.X):
+			cst = x.Y
+		case isMode(x.Y):
+			cst = x.X
+		default:
+			return ""
+		}
+		v, isC := constBool(info, cst)
+		if !isC {
+			return ""
+		}
+		if (x.Op == token.EQL) == v {
+			return "yes"
+		}
+		return "no"
+	case *ast.CallExpr: // bool(oneShot)
+		if len(x.Args) == 1 && isMode(x.Args[0]) {
+			if tv, ok := info.Types[x.Fun]; ok && tv.IsType() && c16IsBool(tv.Type.Underlying()) {
+				return "yes"
+			}
+		}
+	case *ast.UnaryExpr:
+		if x.Op == token.NOT {
+			switch c16OneShotEnabled(nf, info, x.X) {
+			case "yes":
+				return "no"
+			}
+		}
+	}
+	return ""
+}
+
+// c16Finish checks R2 on LineReader.Finish.
+func c16Finish(c *core.Check) {
+	ff := c.MustFn("C16-R2", lrFinish)
+	if ff == nil {
+		return
+	}
+	fg := ff.Graph()
+	sends := fg.Find(func(n ast.Node) bool { _, ok := n.(*ast.SendStmt); return ok })
+	e1, e2, e3, other := c16BufferEvents(ff, 0)
+	// is the reader used again after Finish anywhere?
+	reused := []string{}
+	for _, sf := range shipped(c) {
+		sg := sf.Graph()
+		for _, h := range sg.CallsTo(lrFinish) {
+			if h.InDefer {
+				continue
+			}
+			from := h.P
+			again := append(core.HitPoints(sg.CallsTo(lrReadAndSend)), core.HitPoints(sg.CallsTo(lrFinish))...)
+			if _, found := pathAvoiding(sg, &from, again, nil); found {
+				reused = append(reused, sf.Key+"@"+pos(c, h.N))
+			}
+		}
+	}
+	c.Extra["finish_then_reader_reused_at"] = reused
+	if len(sends) == 0 {
+		c.Undecided("C16-R2", lrFinish, pos(c, ff.Decl), "no send statement found in Finish")
+	}
+	for i, s := range sends {
+		from := s.P
+		exits := core.ExitPoints(normalExits(fg))
+		// every path passes (off = len(buf)) or both (buf emptied) and (off = 0)
+		t1, bad1 := pathAvoiding(fg, &from, exits, append(append([]core.Point{}, e1...), e2...))
+		t2, bad2 := pathAvoiding(fg, &from, exits, append(append([]core.Point{}, e1...), e3...))
+		found, trail := bad1 || bad2, t1
+		if !bad1 {
+			trail = t2
+		}
+		key := fmt.Sprintf("%s|send#%d", lrFinish, i+1)
+		switch {
+		case found && len(reused) > 0 && len(other) > 0:
+			c.Undecided("C16-R2", key, pos(c, s.N), "Finish assigns the reader's buffer or offset in a form that is not recognised as emptying the buffer ("+strings.Join(other, "; ")+")")
+		case found && len(reused) > 0:
+			c.Fail("C16-R2", key, pos(c, s.N), "Finish delivers the fragment but leaves it in the buffer (no off = len(buf), and not both buf emptied and off = 0), and the reader is used again after Finish at "+strings.Join(reused, ", ")+": after a truncation the fragment is delivered again merged with the first new line", trail...)
+		case found:
+			c.Ok("C16-R2", key, pos(c, s.N), "Finish does not reset the buffer, but no caller uses the reader again after Finish")
+		default:
+			c.Ok("C16-R2", key, pos(c, s.N), "buffer emptied on every path after the send")
+		}
+	}
+}
+
+// c16BufferEvents finds in a method of LineReader the points that (e1) set
+// off = len(buf), (e2) empty buf, (e3) set off = 0 — on the method's own
+// receiver, directly or by calling another method of the receiver that does so
+// on all its paths — and describes the other assignments to buf/off.
+func c16BufferEvents(ff *core.Func, depth int) (e1, e2, e3 []core.Point, other []string) {
+	info := ff.Info()
+	recv := hbRecv(ff)
+	fg := ff.Graph()
+	if recv == nil {
+		return
+	}
+	field := func(e ast.Expr) string {
+		fv, base := hbFieldOf(info, e)
+		if fv == nil || identObj(info, base) != recv {
+			return ""
+		}
+		return fv.Name()
+	}
+	isLenBuf := func(e ast.Expr) bool {
+		call, ok := core.Unparen(e).(*ast.CallExpr)
+		return ok && ff.CalleeID(call) == "builtin.len" && len(call.Args) == 1 && field(call.Args[0]) == "buf"
+	}
+	for _, h := range fg.Find(func(n ast.Node) bool {
+		switch n.(type) {
+		case *ast.AssignStmt, *ast.IncDecStmt, *ast.CallExpr:
+			return true
+		}
+		return false
+	}) {
+		switch s := h.N.(type) {
+		case *ast.IncDecStmt:
+			if fn := field(s.X); fn == "off" || fn == "buf" {
+				other = append(other, exprStr(s.X)+s.Tok.String())
+			}
+		case *ast.AssignStmt:
+			for i, l := range s.Lhs {
+				fn := field(l)
+				if fn != "off" && fn != "buf" {
+					continue
+				}
+				if len(s.Rhs) != len(s.Lhs) || s.Tok != token.ASSIGN {
+					other = append(other, exprStr(l)+" "+s.Tok.String()+" …")
+					continue
+				}
+				r := core.Unparen(s.Rhs[i])
+				switch fn {
+				case "off":
+					if isLenBuf(r) {
+						e1 = append(e1, h.P)
+					} else if v, isC := constInt(info, r); isC && v == 0 {
+						e3 = append(e3, h.P)
+					} else {
+						other = append(other, exprStr(l)+" = "+exprStr(r))
+					}
+				case "buf":
+					empty := false
+					switch x := r.(type) {
+					case *ast.Ident:
+						empty = isNilIdent(info, x)
+					case *ast.SliceExpr: // buf[:0], buf[0:0], buf[len(buf):]
+						if field(x.X) == "buf" && x.Max == nil {
+							hi0 := false
+							if x.High != nil {
+								v, isC := constInt(info, x.High)
+								hi0 = isC && v == 0
+							}
+							lowLen := x.Low != nil && isLenBuf(x.Low) && x.High == nil
+							empty = hi0 || lowLen
+						}
+					case *ast.CallExpr:
+						if ff.CalleeID(x) == "builtin.make" && len(x.Args) >= 2 {
+							v, isC := constInt(info, x.Args[1])
+							empty = isC && v == 0
+						}
+					}
+					if empty {
+						e2 = append(e2, h.P)
+					} else {
+						other = append(other, exprStr(l)+" = "+exprStr(r))
+					}
+				}
+			}
+		case *ast.CallExpr:
+			// a method of the same receiver that empties the buffer on all its paths
+			if depth >= 2 {
+				continue
+			}
+			cf := ff.CalleeFunc(s)
+			if cf == nil || cf == ff || identObj(info, core.RecvExpr(s)) != recv || hbRecv(cf) == nil {
+				continue
+			}
+			c1, c2, c3, _ := c16BufferEvents(cf, depth+1)
+			cg := cf.Graph()
+			cex := core.ExitPoints(normalExits(cg))
+			_, bad1 := pathAvoiding(cg, nil, cex, append(append([]core.Point{}, c1...), c2...))
+			_, bad2 := pathAvoiding(cg, nil, cex, append(append([]core.Point{}, c1...), c3...))
+			if len(c1)+len(c2)+len(c3) > 0 && !bad1 && !bad2 {
+				e1 = append(e1, h.P)
+			}
+		}
+	}
+	return
 }
 
 // enclosingErrIf finds `if err := <call>; err != nil {` or `err := <call>` followed by
-// `if err != nil` for the given call.
+// `if err != nil` for the given call.  (Kept for checkers that want the
+// statement; new code should use hbErrTest, which recognises every form.)
 func enclosingErrIf(f *core.Func, call *ast.CallExpr) *ast.IfStmt {
 	var res *ast.IfStmt
 	info := f.Info()
